@@ -326,6 +326,15 @@ pub fn supported(rng: &mut Rng, ident: &str, allow_huge: bool) -> Decl {
             } else {
                 rng.pick(&RENAMES).to_string()
             };
+            // now and then several rename attributes on one variant: accepted, the last one wins
+            if rng.chance(1, 6) {
+                let first = rng.pick(&RENAMES).to_string();
+                body.push_str(&format!("#[enum_tools(rename = {})] ", str_lit(&first)));
+                if rng.chance(1, 3) {
+                    body.push_str("#[doc(hidden)] ");
+                    body.push_str(&format!("#[enum_tools(rename = {})] ", str_lit("middle")));
+                }
+            }
             body.push_str(&format!("#[enum_tools(rename = {})] ", str_lit(&r)));
             name = r;
         }
